@@ -256,6 +256,9 @@ func multisetDiff(a, b []string) []string {
 }
 
 func runDropDrift(c *Ctx, pkgs []string) {
+	if !referenceConfig(c) {
+		return
+	}
 	if dropRefCache == nil {
 		b, err := os.ReadFile(filepath.Join(refDir, "steps.json"))
 		if err != nil {
